@@ -213,12 +213,20 @@ def inj_flatten_combined(rnd):
         return None
     s, info, fr = h
     key = "(%s)" % ", ".join(fr)
-    host = _with_part(s, "Z", {key: ["flatten()"]})
-    other = rnd.choice(["uniform_occupancy(A.3)", "uniform_shape(4)", "nway_shape(2)"])
+    extra = {}
+    others = [r for r in info["ranks"] if r not in fr]
+    choices = ["uniform_occupancy(A.3)", "uniform_shape(4)", "nway_shape(2)"]
+    if others and rnd.random() < 0.4:
+        # follow(X) of a rank outside the tuple that has a partitioning of its own
+        x = rnd.choice(others)
+        extra = {x: ["uniform_shape(3)"]}
+        choices = ["follow(%s)" % x]
+    host = _with_part(s, "Z", dict({key: ["flatten()"]}, **extra))
+    other = rnd.choice(choices)
     stack = ["flatten()"]
     for _ in range(rnd.choice([1, 1, 2])):
         stack.insert(rnd.randint(0, len(stack)), other)
-    bad = _with_part(s, "Z", {key: stack})
+    bad = _with_part(s, "Z", dict({key: stack}, **extra))
     return "flatten-combined-with-other-directives", "flatten@%d/%d" % (
         stack.index("flatten()"), len(stack)), host, bad, "plain"
 
@@ -348,11 +356,17 @@ def inj_nonflatten_on_tuple(rnd):
         return None
     s, info, fr = h
     key = "(%s)" % ", ".join(fr)
-    host = _with_part(s, "Z", {key: ["flatten()"]})
+    extra = {}
+    others = [r for r in info["ranks"] if r not in fr]
+    choices = ["uniform_shape(4)", "uniform_occupancy(A.3)", "nway_shape(2)", "follow(%s)" % fr[0]]
+    if others and rnd.random() < 0.4:
+        x = rnd.choice(others)
+        extra = {x: ["uniform_shape(3)"]}
+        choices = ["follow(%s)" % x]
+    host = _with_part(s, "Z", dict({key: ["flatten()"]}, **extra))
     n = rnd.choice([1, 1, 2])
-    stack = [rnd.choice(["uniform_shape(4)", "uniform_occupancy(A.3)", "nway_shape(2)",
-                         "follow(%s)" % fr[0]]) for _ in range(n)]
-    bad = _with_part(s, "Z", {key: stack})
+    stack = [rnd.choice(choices) for _ in range(n)]
+    bad = _with_part(s, "Z", dict({key: stack}, **extra))
     return "non-flatten-directive-on-rank-tuple", "%d-directives/%d-ranks" % (n, len(fr)), \
         host, bad, "plain"
 
